@@ -50,14 +50,20 @@ Proof. exact identity_verbatim_stmt. Qed.
 Print Assumptions c11_identity_rewrite_verbatim.
 
 (* Second sentence, renaming: ContextRefRename(from, to) — modelled by rename, with is_from n = strings.EqualFold(n,
-   from) — renames exactly the context references that match, in place (refs lists the reference names in source
-   order), and changes nothing else: the tree with reference names blanked (erase) is identical — operators,
-   lookups, literals, anonymous-function argument names, Parentheses.  When nothing matches the tree is untouched and
-   the transformation reports "unchanged" (so, by the theorem above, the template text is kept verbatim). *)
+   from) — renames exactly the FREE context references that match, in place (frefs: the references not inside an
+   anonymous function that has a parameter named like `from`, in source order); the references bound by such a
+   parameter (brefs) are left as they are (since /repo 881a989; before, they were renamed too and the meaning of
+   `(webhook) => webhook` changed — finding, repaired); and nothing else changes: the tree with reference names
+   blanked (erase) is identical — operators, lookups, literals, parameter lists, Parentheses.  When no free reference
+   matches the tree is untouched and the transformation reports "unchanged" (so, by the theorem above, the template
+   text is kept verbatim).  Tree level; the tie to the text refactor.Template returns is the correspondence run
+   (model/ExRefactorCorr.v) — and, for a target that is a NAME, c11_reparse_tokens' argument applies to the printed
+   tokens of the renamed tree unchanged, since only texts of NAME tokens differ (not stated as a theorem). *)
 Theorem c11_rename_exact : forall (is_from : ExSyntax.text -> bool) (to : ExSyntax.text) e,
-  refs (rename is_from to e) = map (fun n => if is_from n then to else n) (refs e)
+  frefs is_from (rename is_from to e) = map (fun n => if is_from n then to else n) (frefs is_from e)
+  /\ brefs is_from (rename is_from to e) = brefs is_from e
   /\ erase (rename is_from to e) = erase e
-  /\ (existsb is_from (refs e) = false -> rename is_from to e = e /\ rename_tx is_from to e = None).
+  /\ (existsb is_from (frefs is_from e) = false -> rename is_from to e = e /\ rename_tx is_from to e = None).
 Proof. exact rename_exact_stmt. Qed.
 Print Assumptions c11_rename_exact.
 
